@@ -550,54 +550,15 @@ type c16History struct {
 	w        *engcWorld
 	proto    cpxProto
 	interval uint64
-	blocks   []bookkeeping.Block        // index == round
-	labels   map[basics.Round]string    // producer's label per catchpoint round
-	app      basics.AppIndex            // scripted application (0 if its creation was rejected)
+	blocks   []bookkeeping.Block     // index == round
+	labels   map[basics.Round]string // producer's label per catchpoint round
+	scr      cpxScript
 	hadOps   int
-}
-
-// c16Script submits the scripted transactions of the block under construction: an application with boxes and global
-// state, an asset with a second holder. Rejections are tolerated (recorded by the engine like any other group).
-func (h *c16History) script(b *engcBlockBuilder, t *rapid.T) {
-	w := h.w
-	tip := b.Gen.s
-	rich := w.Users[0]
-	for _, u := range w.Users {
-		if tip.Acct(u).Data.MicroAlgos.Raw > tip.Acct(rich).Data.MicroAlgos.Raw {
-			rich = u
-		}
-	}
-	a, _, cl := engcPrograms()
-	switch b.Round {
-	case 1:
-		_ = b.Submit([]string{"app-create"}, &txntest.Txn{Type: protocol.ApplicationCallTx, Sender: rich, ApprovalProgram: a, ClearStateProgram: cl,
-			GlobalStateSchema: basics.StateSchema{NumUint: 1, NumByteSlice: 2}, LocalStateSchema: basics.StateSchema{NumByteSlice: 1}})
-		_ = b.Submit([]string{"acfg-create"}, &txntest.Txn{Type: protocol.AssetConfigTx, Sender: rich,
-			AssetParams: basics.AssetParams{Total: 1_000_000, UnitName: "c16", Manager: rich, Reserve: rich}})
-	case 2:
-		for _, id := range tip.CreatableIDs(basics.AppCreatable) {
-			if c, _ := tip.Creator(id, basics.AppCreatable); c == rich && h.app == 0 {
-				h.app = basics.AppIndex(id)
-			}
-		}
-		if h.app != 0 {
-			_ = b.Submit([]string{"app-fund"}, &txntest.Txn{Type: protocol.PaymentTx, Sender: rich, Receiver: h.app.Address(), Amount: 2_000_000})
-			_ = b.Submit([]string{"app-call"}, &txntest.Txn{Type: protocol.ApplicationCallTx, Sender: rich, ApplicationID: h.app,
-				ApplicationArgs: [][]byte{[]byte("gput"), []byte("k"), []byte("v0")}})
-		}
-	case 3:
-		if h.app != 0 {
-			for _, name := range []string{"ab", "x"} {
-				_ = b.Submit([]string{"app-call"}, &txntest.Txn{Type: protocol.ApplicationCallTx, Sender: rich, ApplicationID: h.app,
-					ApplicationArgs: [][]byte{[]byte("bput"), []byte(name), []byte("c" + name)}, Boxes: []transactions.BoxRef{{Index: 0, Name: []byte(name)}}})
-			}
-		}
-	}
 }
 
 func c16BuildHistory(tb *testing.T, t *rapid.T, vk *vkCtx, proto cpxProto, profile string, scripted bool) *c16History {
 	h := &c16History{proto: proto, labels: map[basics.Round]string{}}
-	h.interval = rapid.SampledFrom([]uint64{4, 4, 8}).Draw(t, "interval")
+	h.interval = rapid.SampledFrom([]uint64{4, 8, 4}).Draw(t, "interval")
 	spec := cpxNodeSpec{Interval: h.interval, Tracking: config.CatchpointTrackingModeStored, TrieCache: 9000}
 	w := engcNewWorld(tb, t, engcOpts{Proto: proto.CV, Profile: profile, Label: vk.Label, MaxGroupsPerBlock: 4,
 		CfgHook: func(name string, cfg *config.Local) { spec.apply(cfg) }})
@@ -612,16 +573,11 @@ func (h *c16History) run(t *rapid.T, n int, scripted bool) {
 	w := h.w
 	ops := []string{"none", "none", "none", "none", "commit", "reload", "park", "prune"}
 	for i := 0; i < n; i++ {
-		b := w.BeginBlock(t)
+		var sc *cpxScript
 		if scripted {
-			h.script(b, t)
+			sc = &h.scr
 		}
-		ng := 0
-		if rapid.IntRange(0, 7).Draw(t, "emptyBlock") != 0 {
-			ng = rapid.IntRange(1, 4).Draw(t, "ngroups")
-		}
-		b.RandomGroups(t, ng)
-		b.Finish(t)
+		cpxScriptedBlock(w, t, sc, 4)
 		switch op := ops[rapid.IntRange(0, len(ops)-1).Draw(t, "producer.op")]; op {
 		case "commit":
 			w.Node.OpCommit()
